@@ -688,8 +688,10 @@ class DFA:
 
     def mark_accepting(self, state):
         if isinstance(state, int):
-            self.accepting_states.append(DFState.all_states[state])
-        else:
+            state = DFState.all_states[state]
+        # (a state is accepting or it is not: listed twice -- the shared body of a case clause with two labels is joined on once per label -- it
+        # would be handed whatever is chained at the end twice, and stay accepting when it is taken off the list once)
+        if state not in self.accepting_states:
             self.accepting_states.append(state)
 
     def simulate(self, actions):
